@@ -549,9 +549,7 @@ def _vk_from_string(cls, string, curve=None, hashfunc=None, validate_point=True,
     if L in (64, 65):
         if L == 65:
             p = b[0]
-            if not bool(p == 4):
-                if bool((p == 6) | (p == 7)):
-                    raise Unsupported("hybrid SEC encoding")
+            if not (bool(p == 4) or bool(p == 6) or bool(p == 7)):     # 06/07: hybrid form, same point data
                 _mraise(MalformedPointError("Invalid X9.62 encoding of the public point"))
             xy = b[1:].bv()
         else:
